@@ -179,7 +179,7 @@ def main(argv):
             unlisted.append(r)
     for mech, (k, rs) in listed.items():
         print(f"KNOWN-FINDING: property={prop} {k['text']} [{len(rs)} case(s) this run, e.g. {rs[0]['id']}]")
-    rdir = os.path.join(HOME, "replays", prop)
+    rdir = os.path.join(os.environ.get("VERIF_REPLAY_DIR") or os.path.join(HOME, "replays"), prop)
     for r in unlisted[:25]:
         os.makedirs(rdir, exist_ok=True)
         path = os.path.join(rdir, f"{r['id']}.json")
@@ -244,8 +244,9 @@ def main(argv):
             "verdict": "violated" if unlisted else ("inconclusive" if reasons else "held on what was observed"),
             "repo": REPO,
         }
-        os.makedirs(os.path.join(HOME, "evidence"), exist_ok=True)
-        with open(os.path.join(HOME, "evidence", f"{prop}.json"), "w") as f:
+        evdir = os.environ.get("VERIF_EVIDENCE_DIR") or os.path.join(HOME, "evidence")
+        os.makedirs(evdir, exist_ok=True)
+        with open(os.path.join(evdir, f"{prop}.json"), "w") as f:
             json.dump(ev, f, indent=1, default=str)
             f.write("\n")
 
